@@ -573,3 +573,66 @@ Proof.
   rewrite map_length. replace (List.length instances + j - List.length instances)%nat with j by lia.
   assumption.
 Qed.
+
+(** * Document level: the first refused group *)
+
+Lemma add_group_instances_app x s e pids eids l1 : forall l2 st todo mr,
+  add_group_instances x s e pids eids (l1 ++ l2) st todo mr
+  = bind (add_group_instances x s e pids eids l1 st todo mr)
+         (fun r => let '(st', todo', mr') := r in add_group_instances x s e pids eids l2 st' todo' mr').
+Proof.
+  induction l1 as [|[gid j] l1 IH]; intros l2 st todo mr; cbn [app add_group_instances]; [reflexivity|].
+  destruct j; try reflexivity.
+  destruct (allocate_roles pids todo (roles_json e l)); cbn [bind]; [|reflexivity].
+  destruct (index_of gid eids); [|reflexivity].
+  destruct (assign_roles pids (Z.of_nat n) (roles_json e l) mr); cbn [bind]; [|reflexivity].
+  destruct (init_variable_values x s st e (without_roles e l) gid); cbn [bind]; [apply IH|reflexivity].
+Qed.
+
+Lemma add_groups_app x s pids params ax g1 : forall g2 st,
+  add_groups x s st pids params ax (g1 ++ g2)
+  = bind (add_groups x s st pids params ax g1) (fun st' => add_groups x s st' pids params ax g2).
+Proof.
+  induction g1 as [|e g1 IH]; intros g2 st; cbn [app add_groups]; [reflexivity|].
+  destruct (match aget (e_plural e) params with
+            | Some JNull | None => if ax then Err ESituation else Ok (add_default_group_entity st pids e)
+            | Some j => add_group_entity x s st pids e j end); cbn [bind]; [apply IH|reflexivity].
+Qed.
+
+(** the first group whose role lists hold an unknown person, a person already allocated, or too
+    many holders of a role makes the build fail with the situation error: the persons, the
+    group kinds [gpre] read before and the groups [ipre] of this kind read before were accepted *)
+Theorem group_declaration_rejected x s doc i persons st1 gpre e gpost instances ipre gid fields ipost
+    sta stb todo mr :
+  existsb (fun kv : string * json => negb (mem_str (fst kv) (plurals s))) (aremove "axes" doc) = false ->
+  aget (e_plural (s_person s)) (aremove "axes" doc) = Some (JObj (i :: persons)) ->
+  add_person_entity x s b_empty (i :: persons) = Ok st1 ->
+  s_groups s = gpre ++ e :: gpost ->
+  add_groups x s st1 (get_ids st1 (e_plural (s_person s))) (aremove "axes" doc)
+    (match aget "axes"%string doc with Some JNull | None => false | Some _ => true end) gpre = Ok sta ->
+  aget (e_plural e) (aremove "axes" doc) = Some (JObj instances) ->
+  instances = ipre ++ (gid, JObj fields) :: ipost ->
+  add_group_instances x s e (get_ids st1 (e_plural (s_person s))) (map fst instances) ipre
+    (set_ids sta (e_plural e) (map fst instances)) (get_ids st1 (e_plural (s_person s)))
+    (repeat 0 (List.length (get_ids st1 (e_plural (s_person s)))),
+     repeat EmptyString (List.length (get_ids st1 (e_plural (s_person s))))) = Ok (stb, todo, mr) ->
+  (allocate_roles (get_ids st1 (e_plural (s_person s))) todo (roles_json e fields) = Err ESituation
+   \/ (exists todo', allocate_roles (get_ids st1 (e_plural (s_person s))) todo (roles_json e fields) = Ok todo'
+       /\ forall gi, assign_roles (get_ids st1 (e_plural (s_person s))) gi (roles_json e fields) mr
+                     = Err ESituation)) ->
+  build_from_entities x s doc = Err ESituation.
+Proof.
+  intros Hent Hp H1 Hgs Hpre Hinst Ei Hipre Hbad. unfold build_from_entities.
+  rewrite Hent, Hp, H1. cbn [bind]. rewrite Hgs.
+  assert (forall b0 b1 : bool,
+            match match aget "axes"%string doc with Some JNull | None => None | Some j => Some j end with
+            | Some _ => true | None => false end
+            = match aget "axes"%string doc with Some JNull | None => false | Some _ => true end) as Eax.
+  { intros _ _. destruct (aget "axes"%string doc) as [j|]; [destruct j|]; reflexivity. }
+  rewrite (Eax true true), add_groups_app, Hpre. cbn [bind add_groups]. rewrite Hinst.
+  assert (add_group_entity x s sta (get_ids st1 (e_plural (s_person s))) e (JObj instances)
+          = Err ESituation) as ->; [|reflexivity].
+  unfold add_group_entity. rewrite Ei at 2. rewrite add_group_instances_app, Hipre. cbn [bind].
+  rewrite group_instance_rejected; [reflexivity|assumption|].
+  rewrite Ei, map_app. apply in_or_app. right. left. reflexivity.
+Qed.
